@@ -389,6 +389,46 @@ def run_positioned_stdin(ctx):
         shutil.rmtree(tmp, ignore_errors=True)
 
 
+def run_undecodable(ctx):
+    """Document and patch files whose bytes are not text in any of the encodings JSON allows (a stray 0xFF, a truncated
+    UTF-8 sequence, an odd number of bytes after a UTF-16 byte-order mark, a lone continuation byte): the statement lists
+    the undecodable document among the inputs that end in a one-line message, exit status 1 and no traceback."""
+    from rt.harness import REPO, VERIF
+
+    tmp = os.path.join(VERIF, "out", "C18", "tmp-undecodable")
+    shutil.rmtree(tmp, ignore_errors=True)
+    os.makedirs(tmp, exist_ok=True)
+    files = Files(tmp)
+    try:
+        blobs = [b'{"a": "\xff"}', b'{"a": "caf\xc3"}', b'\xff\xfe{\x00"', b'\x80', b'[1, 2, "\xc0\xaf"]', b'{"a": 1}\xff', b'\xfe\xff\x00{\x00', b'{"\xed\xa0": 1}']
+        good_doc = files.write('{"a": [1, 2], "b": "x"}')
+        good_patch = files.write('[{"op": "add", "path": "/c", "value": 1}]')
+        n = 0
+        for blob in blobs:
+            n += 1
+            bad = os.path.join(tmp, "bad%d" % n)
+            with open(bad, "wb") as f:
+                f.write(blob)
+            cases = [("path", ["path", "-q", "$.a", "-f", bad], None), ("pointer", ["pointer", "-p", "/a", "-f", bad], None), ("patch", ["patch", good_patch, "-f", bad], None), ("patch-file", ["patch", bad, "-f", good_doc], None),
+                     ("path --pretty", ["--pretty", "path", "-q", "$..*", "-f", bad], None), ("pointer --uri-decode", ["pointer", "-p", "/a", "-u", "-f", bad], None)]
+            # (standard input is a text stream whose decoding - strict, or with surrogateescape under the C locale - is the
+            # interpreter's, before the tool sees anything: not part of this class)
+            for label, argv, stdin_bytes in cases:
+                env = dict(os.environ)
+                env["PYTHONPATH"] = REPO
+                p = subprocess.run([sys.executable, "-B", "-m", "jsonpath"] + argv, input=stdin_bytes if stdin_bytes is not None else b"", capture_output=True, timeout=60, env=env, cwd=REPO)
+                err = p.stderr.decode("utf-8", "replace")
+                ctx.evaluation()
+                ctx.case(h("undecodable", blob, label), True)
+                ctx.count("invocations_on_undecodable_documents")
+                lines = [ln for ln in err.split("\n") if ln.strip()]
+                if p.returncode != 1 or "Traceback" in err or len(lines) != 1 or p.stdout.strip():
+                    ctx.violation("cli-does-not-reject-an-undecodable-document-cleanly:%s" % label.split(" ")[0], {"kind": "undecodable"}, {"argv": [a if not a.startswith(tmp) else "<file>" for a in argv], "bytes": repr(blob), "status": p.returncode, "stdout": p.stdout[:100].decode("utf-8", "replace"), "stderr_tail": err[-300:]})
+                    return
+    finally:
+        shutil.rmtree(tmp, ignore_errors=True)
+
+
 def run_threads(ctx, rounds):
     """Invocations of the three sub-commands running at the same time in one process (a server or a test runner driving
     the tool's own parser and handlers from several threads), with injected yields inside the tool and the library.
@@ -510,6 +550,7 @@ def run(spec, ctx):
     if spec.get("kind") == "terminal":
         run_terminal(ctx)
         run_positioned_stdin(ctx)
+        run_undecodable(ctx)
         return
     cmd = spec["cmd"]
     tmp = os.path.join(VERIF, "out", "C18", "tmp-%s-%d" % (cmd, spec["part"]))
@@ -644,6 +685,9 @@ def replay(case, ctx):
         return
     if case.get("kind") == "positioned-stdin":
         run_positioned_stdin(ctx)
+        return
+    if case.get("kind") == "undecodable":
+        run_undecodable(ctx)
         return
     tmp = os.path.join(VERIF, "out", "C18", "tmp-replay")
     files = Files(tmp)
